@@ -18,6 +18,8 @@ use varlink::ConnectionHandler as _;
 use std::sync::atomic::{AtomicBool, AtomicUsize, Ordering};
 use std::time::{Duration, Instant};
 
+/// what `vhelper serve --banner` prints on its stdout before it listens
+pub const BANNER: &str = "vhelper-start-up-banner";
 pub const UP_NAME: &str = "org.example.up";
 pub const UP_DESC: &str = "interface org.example.up\nmethod Start() -> (ok: bool)\n";
 pub const RESOLVER_NAME: &str = "org.varlink.resolver";
@@ -98,7 +100,13 @@ impl varlink::Interface for AbortIface {
                 let p = req.parameters.clone().unwrap_or(Value::Null);
                 let delay = p.get("delay_ms").and_then(|d| d.as_u64()).unwrap_or(0);
                 let token = p.get("token").and_then(|d| d.as_str()).unwrap_or("").to_string();
-                call.reply_struct(Reply::parameters(Some(json!({ "aborting": token }))))?;
+                // `pad_bytes`: a reply larger than pipe and socket buffers, so that it is still in flight
+                // when the connection is dropped
+                let reply = match p.get("pad_bytes").and_then(|d| d.as_u64()) {
+                    Some(n) => json!({ "aborting": token, "pad": "p".repeat(n as usize) }),
+                    None => json!({ "aborting": token }),
+                };
+                call.reply_struct(Reply::parameters(Some(reply)))?;
                 if delay > 0 {
                     std::thread::sleep(Duration::from_millis(delay));
                 }
